@@ -53,7 +53,7 @@ class C18(Check):
             for op in combo:
                 lines += [op, "tsobs"]
             yield run_lines(real, lines)
-        for _ in range(1500 if tier == "quick" else 30000):
+        for _ in range(5000 if tier == "quick" else 30000):
             lines = ["reset"]
             for _ in range(rng.randint(3, 25)):
                 lines += [rng.choice(ops), "tsobs"]
